@@ -1,0 +1,11 @@
+//go:build verif
+
+package dhcp4_spoofer
+
+// VerifLeaseWithSubnet returns a copy of l attached to a subnet holding cfg, the way the handler attaches
+// every lease it stores, so that checks can render Lease.FastLog/String (which read the unexported
+// subnet pointer). Add-only; compiled only with -tags verif.
+func VerifLeaseWithSubnet(l Lease, cfg SubnetConfig) Lease {
+	l.subnet = &dhcpSubnet{SubnetConfig: cfg}
+	return l
+}
